@@ -175,9 +175,10 @@ func c12Run(w *W) {
 	}
 	// fixed block: classes, multi-byte runes, every regexp metacharacter as an ordinary character
 	meta := []string{"+", "(", ")", "|", "{", "}", "$", "^", ".", "é", "日", "\\+", "\\é", "[+]", "[.]", "[é日]", "[!é]", "[a-é]",
-		"[[:alpha:]]", "[[:digit:]]", "[![:space:]]", "[[:upper:][:digit:]]", "[[:punct:]]", "[[:alpha:]-]", "[]-a]", "[a\\]b]", "[\\\\]", "[\\-a]", "[a\\-b]", "[\\!a]", "[\\^a]"}
+		"[[:alpha:]]", "[[:digit:]]", "[![:space:]]", "[[:upper:][:digit:]]", "[[:punct:]]", "[[:alpha:]-]", "[]-a]", "[a\\]b]", "[\\\\]", "[\\-a]", "[a\\-b]", "[\\!a]", "[\\^a]",
+		"a{2}", "a{1,}", "a{1,2}", "{1}", "a{,2}", "(a)", "a|b", "a+", "^a$", "a.", "\\{2}", "[{]2}", "é{2}"}
 	glue := []string{"", "*", "?", "a"}
-	subj2 := []string{"", "+", "a+", "+a", "(", ")", "|", "{", "}", "$", "^", ".", "é", "日", "aé", "éa", "é日", "a", "A", "1", " ", "-", "]", "\\", "!", "a\nb", "\n", "ab", "a.b", "é\n日", "\t"}
+	subj2 := []string{"", "+", "a+", "+a", "(", ")", "|", "{", "}", "$", "^", ".", "é", "日", "aé", "éa", "é日", "a", "A", "1", " ", "-", "]", "\\", "!", "a\nb", "\n", "ab", "a.b", "é\n日", "\t", "aa", "a{2}", "a{1,}", "a{1,2}", "{1}", "a{,2}", "(a)", "a|b", "^a$", "{2}", "éé", "é{2}", "b"}
 	for _, g1 := range glue {
 		for _, mt := range meta {
 			for _, g2 := range glue {
